@@ -56,6 +56,7 @@ theorem inv_stepC {s s' : State} {t : Nat} {l : Label} (h : Inv s) (ht : t ≠ 0
   cases hp : s.cpc t with
   | idle => unfold stepC at hs; rw [hp] at hs; cases hs
   | c0 secs g0 => exact stepC_c0 h ht hp hs
+  | c0a secs g0 => exact stepC_c0a h ht hp hs
   | c1 secs => exact stepC_c1 h ht hp hs
   | c2 d id => exact stepC_c2 h ht hp hs
   | c3 d id => exact stepC_c3 h ht hp hs
@@ -71,6 +72,56 @@ theorem inv_step {s s' : State} {t : Nat} {l : Label} (h : Inv s) (hs : step s t
 
 theorem inv_call {s s' : State} {t : Nat} {secs : Int} (h : Inv s) (hc : callTill s t secs = some s') : Inv s' := by
   unfold callTill at hc
+  split at hc
+  · cases hc
+  · rename_i ht
+    split at hc
+    · rename_i hp; cases hc
+      copen
+      case Mk =>
+        intro u id' hu
+        by_cases hut : u = t
+        · subst hut; simp [CPC.making] at hu
+        · simp only [hut, if_false] at hu; exact Mk u id' hu
+      case Un =>
+        intro u id' hu
+        by_cases hut : u = t
+        · subst hut; simp [CPC.unregistered] at hu
+        · simp only [hut, if_false] at hu; exact Un u id' hu
+      case Dd =>
+        intro u d' id' hu
+        by_cases hut : u = t
+        · subst hut; simp [CPC.pend] at hu
+        · simp only [hut, if_false] at hu; exact Dd u d' id' hu
+      case F1 =>
+        intro u d' id' hu
+        by_cases hut : u = t
+        · subst hut; simp at hu
+        · simp only [hut, if_false] at hu; exact F1 u d' id' hu
+      case Rg =>
+        intro u id' hu
+        by_cases hut : u = t
+        · subst hut; simp at hu
+        · simp only [hut, if_false] at hu; exact Rg u id' hu
+      case lkt =>
+        intro u hu
+        by_cases hut : u = t
+        · subst hut; simp only [if_true, CPC.holds]
+          have := lkt u hu; rw [hp] at this; simpa [CPC.holds] using this
+        · simp only [hut, if_false]; exact lkt u hu
+      case F3 =>
+        intro id' h1 h2 h3
+        have h4 := F3 id' h1 h2 h3
+        by_cases hmt : s.maker id' = t
+        · rw [hmt, hp] at h4; simp [CPC.making] at h4
+        · simp only [hmt, if_false]; exact h4
+      case cz => simp [Ne.symm ht, cz]
+      all_goals finC
+    · cases hc
+
+
+theorem inv_callAbs {s s' : State} {t : Nat} {secs : Int} (h : Inv s) (hc : callTillAbs s t secs = some s') : Inv s' := by
+  unfold callTillAbs at hc
   split at hc
   · cases hc
   · rename_i ht
@@ -143,8 +194,9 @@ theorem inv_tick {s : State} {d : Int} (h : Inv s) (hk : tickOk s d) : Inv (tick
 theorem reach_inv {s : State} (h : sys.Reach s) : Inv s := by
   refine Sys.Reach.invariant sys (P := Inv) ?_ ?_ ?_ h
   · rintro s ⟨I, hI, rfl⟩; exact inv_init I hI
-  · rintro s s' hi (⟨t, secs, hc⟩ | rfl | ⟨d, hk, rfl⟩)
+  · rintro s s' hi (⟨t, secs, hc⟩ | ⟨t, secs, hc⟩ | rfl | ⟨d, hk, rfl⟩)
     · exact inv_call hi hc
+    · exact inv_callAbs hi hc
     · exact inv_requestStop hi
     · exact inv_tick hi hk
   · intro s s' t l hi hs; exact inv_step hi hs
